@@ -311,6 +311,10 @@ TREE_OPTS = [
     [['skip_unauthorized', None]], [['branches', 'kids'], ['leaves', 'tr']],
     [['branches_expr', 'fr()'], ['leaves', 'tx']],
     [['branches_expr', 'cu']], [['branches', 'nosuch']],
+    # sub-documents that are named but absent, or None
+    [['leaves', 'nodoc']], [['expand', 'nodoc']], [['header', 'nodoc']],
+    [['footer', 'nodoc']], [['leaves', 'vnone']], [['expand', 'vnone']],
+    [['expand', 'nodoc'], ['leaves', 'vnone'], ['branches', 'kids']],
 ]
 
 
@@ -351,7 +355,7 @@ def _depth():
 
 def _one_element_loops(x):
     if isinstance(x, dict):
-        if x.get('r') == 'name' and x.get('n') in ('s2', 'sm'):
+        if x.get('r') == 'name' and x.get('n') in ('s2', 'sm', 'smix'):
             return dict(x, n=x['n'] + '1')
         return {k: _one_element_loops(v) for k, v in x.items()}
     if isinstance(x, list):
@@ -359,7 +363,7 @@ def _one_element_loops(x):
     return x
 
 
-def recursive_programs():
+def recursive_programs(deltas=(300, 301, 302, 303, 304, 305, 306, 307)):
     """Templates that render themselves (a site map, a threaded discussion)
     from inside every binding block, with a handler on the way: the
     recursion ends where the interpreter's own recursion limit is reached,
@@ -400,7 +404,7 @@ def recursive_programs():
                 # loops run over one element (the recursion stays a chain,
                 # not a tree)
                 prog = _one_element_loops(prog)
-                for delta in (300, 301, 302, 303, 304, 305, 306, 307):
+                for delta in deltas:
                     yield dict(recursive=True, ast=prog, outer=outer, tryk=tn,
                                call=cn, delta=delta,
                                syntax=('dtml', 'ssi', 'epfs')[delta % 3])
@@ -416,6 +420,7 @@ def check_recursive(case):
     spec = gen.base_ns(hooks=True)
     spec['s21'] = dict(spec['s2'], items=spec['s2']['items'][:1])
     spec['sm1'] = dict(spec['sm'], items=spec['sm']['items'][:1])
+    spec['smix1'] = dict(spec['smix'], items=spec['smix']['items'][1:2])
     ns = build_ns(spec, world, 'impl')
     src, _ = dtml.print_ast(case['ast'], case['syntax'])
     t = harness.make_template(src, case['syntax'])
@@ -568,7 +573,9 @@ def plan(tier, seed):
     n = 40 if tier == "quick" else 800
     return [dict(seed=seed * 1000 + i, n=n) for i in range(16)] + \
         [dict(enum=True, part=i, parts=8) for i in range(8)] + \
-        [dict(recursive=True, part=i, parts=4) for i in range(4)] + \
+        [dict(recursive=True, part=i, parts=4, deltas=[300, 302, 303, 305]
+              if tier == 'quick' else list(range(300, 308)))
+         for i in range(4)] + \
         [dict(reentered=True)]
 
 
@@ -584,7 +591,7 @@ def run_shard(shard):
                 acc.fail(b, c, msg)
         return acc.result()
     if shard.get('recursive'):
-        for k, case in enumerate(recursive_programs()):
+        for k, case in enumerate(recursive_programs(shard['deltas'])):
             if k % shard['parts'] != shard['part']:
                 continue
             fails, okind = check_recursive(case)
